@@ -6,7 +6,7 @@ from .weave import Unsupported
 from .unit import run_verus, VERIF
 
 REPO = os.environ.get('VERIF_REPO', '/repo')
-OUT = os.path.join(VERIF, 'out')
+OUT = os.environ.get('VERIF_OUT', os.path.join(VERIF, 'out'))
 GUARD = 'algorand_pairing_plus_verif'
 
 
